@@ -106,7 +106,8 @@ def gen_constants():
 # translators of the translator route, run in this order on every check; each regenerates its
 # own Model/Gen*.lean from the Rust text and reports one status line per function
 TRANSLATORS = ["gen_source_model.py", "gen_bddcore.py", "gen_tables.py", "gen_dnnf.py", "gen_sddcore.py",
-               "gen_cnfup.py", "gen_orders.py", "gen_optim.py", "gen_compile.py", "gen_vtree.py", "gen_ffi.py"]
+               "gen_cnfup.py", "gen_orders.py", "gen_optim.py", "gen_compile.py", "gen_vtree.py", "gen_cnford.py", "gen_ffi.py",
+               "gen_sddq.py", "gen_scratch.py", "gen_cli.py"]
 
 
 def gen_source_model():
